@@ -75,6 +75,9 @@ def obligations(pid, tier, only=None, cfgs=None):
                 continue
             if only and o.name not in only:
                 continue
+            if pid == 'C19' and tier == 'quick' and o.group.startswith('move') and c.name not in C.REPRESENTATIVE:
+                # the constant-index data-movement sweep is C05's; C19 re-reads it on the representative configurations
+                continue
             for t in o.types:
                 for v in L.variants_of(o, t, c, tier):
                     l.append((o.name, t.name, v))
@@ -254,4 +257,8 @@ def c04(a):
     return run('C04', 'proof', a, 'one obligation per (load/store form, element type, configuration): byte footprint through the pointer argument is exactly the register (no byte outside read/written, none skipped), lane i <-> element i, IR alignment assumption <= what the contract grants; gather/scatter: exactly n element accesses at base + index-lane-i * sizeof(T)')
 
 
-REGISTRY = {'C04': c04, 'C05': c05, 'C01': c01, 'C02': c02, 'C03': c03, 'C07': c07, 'C08': c08, 'C09': c09}
+def c06(a):
+    return run('C06', 'proof', a, 'one obligation per (conversion entry point, From, To, configuration): every result lane / memory element equals static_cast<To> of the corresponding source lane as an IR conversion node (sitofp/uitofp/fptosi/fptoui/cvtt/sext/zext/trunc/fpext/fptrunc; class P) or a reviewed emulation (class I); load_as/store_as additionally satisfy the footprint and alignment rules of C04; bitwise_cast is the identity on the register bytes')
+
+
+REGISTRY = {'C06': c06, 'C04': c04, 'C05': c05, 'C01': c01, 'C02': c02, 'C03': c03, 'C07': c07, 'C08': c08, 'C09': c09}
